@@ -34,7 +34,7 @@ def c01(cx):
              'structural R-RESTORE (rollback truncates the line table). Decides the line-table half; column '
              'arithmetic via C05.')
 def c04(cx):
-    lea_glue.apply(cx, ["R-NEWLINE", "R-ADVANCE-EVIDENCE", "R-PRECONSUME"])
+    lea_glue.apply(cx, ["R-NEWLINE", "R-ADVANCE-EVIDENCE", "R-PRECONSUME", "R-OFFSET-PROVENANCE"])
     rules_struct.r_restore(cx, cx.facts("dev-none-stable"))
 
 
@@ -131,7 +131,7 @@ def c02(cx):
              'mode that leaves a non-blank (mode push order; audited table of modes for which a blank is a '
              'terminator). Decides these mode-choreography clauses, not the absence of errors for all programs.')
 def c12(cx):
-    lea_glue.apply(cx, ["R-CKPT", "R-PENDING", "R-WS-ORDER", "R-EXPECT-TABLE", "R-FRAME-BALANCE", "R-9XXX"])
+    lea_glue.apply(cx, ["R-CKPT", "R-PENDING", "R-WS-ORDER", "R-EXPECT-TABLE", "R-FRAME-BALANCE", "R-9XXX", "R-PRECONSUME"])
 
 
 @prop("C17", 'R-BOM-ORDER (the BOM constant is only looked at in Lexer::new, where it is eaten once before the '
@@ -166,7 +166,7 @@ def c05(cx):
              'opener and closer), R-SPELL, R-NONEMPTY. Decides the statement-context flag and token-shape clauses, '
              'not equivalence with a reference lexer.')
 def c11(cx):
-    lea_glue.apply(cx, ["R-PENDING", "R-DELIM-SHAPE", "R-NONEMPTY", "R-SPELL", "R-DATALINES-START"])
+    lea_glue.apply(cx, ["R-PENDING", "R-DELIM-SHAPE", "R-NONEMPTY", "R-SPELL", "R-DATALINES-START", "R-ADVANCE-EVIDENCE"])
 
 
 @prop("C15", 'R-STATE-INVENTORY (no state outside the lexer object), R-NO-ABSOLUTE (no control flow on history '
